@@ -304,8 +304,19 @@ def trip_count_rule(prog: Program, rep: Report) -> None:
         rep.check(rule, init.qual, f"num_records, {label}: `{short(node.value, 70)}`", form == want, what_bad=f"predicted number of records {fmt(form)} but the trigger fires {fmt(want)} times (N = Nsteps, P = period in steps): when P does not divide N the file is closed one record early / late and the next write hits a closed dataset", what_ok=f"{fmt(form)} = number of trigger hits", loc=init.loc(node))
     # skip_initial is set exactly for warm starts
     c2 = prog.func("configure.configure_v2")
-    ok = any(isinstance(n, ast.If) and "'filename' in config['warm_start']" in unparse(n.test) and "'skip_initial' not in config['output']" in unparse(n.test) and any(unparse(x) == "config['output']['skip_initial'] = True" for x in n.body) for n in walk_no_nested(c2.node))
-    rep.check(rule, c2.qual, "skip_initial defaults to True exactly for warm starts", ok, what_bad="the record count of a warm start would be predicted with the cold-start formula", what_ok="warm start => skip_initial", loc=c2.loc())
+    from . import c18
+
+    warm = c18.v2_outcomes(prog, present=[("warm_start", "filename")], absent=[("output", "skip_initial")])
+    cold = c18.v2_outcomes(prog, absent=[("warm_start", "filename"), ("output", "skip_initial")])
+    given = c18.v2_outcomes(prog, present=[("warm_start", "filename"), ("output", "skip_initial")])
+    if any(o["status"] == "unsupported" for o in warm + cold + given):
+        rep.add(rule, c2.qual, "skip_initial defaults to True exactly for warm starts", None, "configure_v2 outside the evaluator", c2.loc())
+    else:
+        def sk(o):
+            return o["overlay"].get(("output",), {}).get("skip_initial", "<not written>")
+
+        ok = bool(warm) and all(o["status"] == "ok" and sk(o) is True for o in warm) and all(sk(o) == "<not written>" for o in cold if o["status"] == "ok") and all(sk(o) == "<not written>" for o in given if o["status"] == "ok")
+        rep.check(rule, c2.qual, "skip_initial defaults to True exactly for warm starts", ok, what_bad="the record count of a warm start would be predicted with the cold-start formula", what_ok="warm start => skip_initial", loc=c2.loc())
 
 
 def rollover_rule(prog: Program, rep: Report) -> None:
@@ -321,7 +332,9 @@ def rollover_rule(prog: Program, rep: Report) -> None:
             n += 1
     if n < 6:
         raise AnalysisError("roll-over obligations not found")
-    init = prog.role_func("output", "__init__")
+    from ..program import reading_view
+
+    init = reading_view(prog, prog.role_func("output", "__init__"))
     src = unparse(init.node)
     multi = [n_ for n_ in walk_no_nested(init.node) if isinstance(n_, ast.If) and unparse(n_.test) in ("self.numrec", "bool(self.numrec)", "self.numrec > 0", "self.numrec != 0", "self.multifile", "numrec", "numrec > 0")]
     ok = False
